@@ -24,7 +24,17 @@ def load_corpus():
     spec = importlib.util.spec_from_file_location('corpus', path)
     mod = importlib.util.module_from_spec(spec)
     spec.loader.exec_module(mod)
-    return mod.MUTANTS
+    muts = list(mod.MUTANTS)
+    # the seeded breaking changes and the behaviour-preserving changes
+    # (indexed by tools/gen_patch_variants.py) are replayed as patches
+    idx = os.path.join(VERIF, 'selftest', 'patch_variants.json')
+    if os.path.exists(idx):
+        with open(idx) as f:
+            for r in json.load(f):
+                muts.append({'id': r['id'], 'prop': r['prop'],
+                             'expect': r['expect'], 'edits': [],
+                             'patch': r['patch']})
+    return muts
 
 
 def _run_one(m, repo='/repo'):
@@ -33,6 +43,13 @@ def _run_one(m, repo='/repo'):
     try:
         shutil.copytree(os.path.join(repo, 'slimta'),
                         os.path.join(tmp, 'slimta'))
+        if m.get('patch'):
+            import subprocess
+            r = subprocess.run(['patch', '-p1', '-s', '-i',
+                                os.path.join(VERIF, m['patch'])], cwd=tmp,
+                               capture_output=True, text=True)
+            if r.returncode != 0:
+                return (m['id'], 'STALE', 'patch does not apply')
         for ed in m['edits']:
             path = os.path.join(tmp, ed['file'])
             with open(path) as f:
